@@ -56,6 +56,7 @@ class Problems:
     def __init__(self):
         self.items = []   # (tags, message)
         self.checked = 0
+        self.ratios = []  # derived ratios of the unified summary, to be decided against the Coq model on this report's statistics
 
     def eq(self, section, field, got, want, extra=None, flt=False):
         self.checked += 1
@@ -251,6 +252,18 @@ def check_report(data, labels):
         P.eq("summary", "total_clones", U.get("total_clones"), len(clones))
         P.eq("summary", "clone_pairs", U.get("clone_pairs"), len(pairs))
         P.eq("summary", "clone_groups", U.get("clone_groups"), len(groups))
+        # the derived ratio of the unified summary: decided by the caller against the Coq model (ReportRun.run_dup =
+        # ScoreQ.code_duplication_of) on THIS report's statistics
+        P.ratios.append({"has_clone": True, "lines": st.get("lines_analyzed", 0), "groups": st.get("total_clone_groups", 0),
+                         "listed_groups": len(groups), "pairs": st.get("total_clone_pairs", 0), "reported": U.get("code_duplication_percentage")})
+    elif "code_duplication_percentage" in U:
+        P.ratios.append({"has_clone": False, "lines": 0, "groups": 0, "listed_groups": 0, "reported": U.get("code_duplication_percentage")})
+    if U:
+        # every derived number of the unified summary stays inside its range
+        P.checked += 1
+        v = U.get("code_duplication_percentage", 0)
+        if not (isinstance(v, (int, float)) and 0 <= v <= 100):
+            P.bad("summary", "code_duplication_percentage", "value %r is not a percentage" % (v,))
     sy = data.get("system")
     if sy and sy.get("DependencyAnalysis"):
         da = sy["DependencyAnalysis"]
@@ -261,6 +274,11 @@ def check_report(data, labels):
         P.eq("system", "Summary.TotalModules", S.get("TotalModules"), len(da.get("ModuleMetrics") or {}), extra)
         P.eq("summary", "deps_total_modules", U.get("deps_total_modules"), da.get("TotalModules"))
         P.eq("summary", "deps_max_depth", U.get("deps_max_depth"), da.get("MaxDepth"))
+        P.eq("summary", "deps_modules_in_cycles", U.get("deps_modules_in_cycles"), (da.get("CircularDependencies") or {}).get("TotalModulesInCycles", 0))
+        P.eq("summary", "deps_main_sequence_deviation", U.get("deps_main_sequence_deviation"),
+             (da.get("CouplingAnalysis") or {}).get("MainSequenceDeviation", 0), flt=True)
+    if sy and U.get("arch_enabled"):
+        P.eq("summary", "arch_compliance", U.get("arch_compliance"), (sy.get("ArchitectureAnalysis") or {}).get("ComplianceScore", 0), flt=True)
     return P
 
 
@@ -732,6 +750,66 @@ def lattice_coverage(data, desc):
                     else:
                         holes.append("%s: no item with metric %d (echoed threshold %d)" % (name, v, t))
     return holes, reached
+
+
+# ------------------------------------------------------------------------------------------------
+# project-SIZE lattice: the derived ratios of the unified summary (code_duplication_percentage = a function of the clone
+# group count and the analysed line count of the SAME report) change their formula with the size of the project (below /
+# above the minimum size unit, below / above the cap): projects whose analysed line count sits exactly ON, next to and
+# between the multiples of the size unit, with 1..3 clone groups. Cheap: clone detection cost depends on the fragments
+# (one pair of duplicated functions per group), not on the padding lines.
+# ------------------------------------------------------------------------------------------------
+SIZE_FAMILIES = [
+    # (parameters, homogeneous statement pattern): structurally unlike each other so that every family is a group of its own
+    ("xs, t", ["for a in xs:", "    for b in a:", "        t.append((a, b))"]),
+    ("xs, t", ["if t > %d:", "    t = t - xs[%d]", "elif t < -%d:", "    t = xs[%d] - t", "else:", "    t = t * %d"]),
+    ("xs, t", ["while t > %d:", "    t = t // 2", "    xs.append([t, %d])", "with open(str(t)) as f%d:", "    t = len(f%d.read())"]),
+]
+PAD_KINDS = ["comment", "blank", "statement", "mixed"]
+
+
+def size_family_fn(fam, name, reps=7):
+    params, pat = SIZE_FAMILIES[fam % len(SIZE_FAMILIES)]
+    ls = ["def %s(%s):" % (name, params)]
+    for i in range(reps):
+        for l in pat:
+            ls.append("    " + (l % ((i,) * l.count("%d")) if "%d" in l else l))
+    return ls + ["    return t", "", ""]
+
+
+def make_size_project(d, rng, target_lines, nfam):
+    """A project whose clone analysis counts exactly target_lines lines (= per file: newline count + 1) and that holds
+    nfam pairs of duplicated functions (family i twice), the rest padding (comment table / blank lines / trivial statements).
+    Returns a description; the group and line counts the check uses are those of the report, not these intentions."""
+    two_files = rng.random() < 0.5
+    pad = rng.choice(PAD_KINDS)
+    a, b = ['"""Sized module (first copies)."""', ""], (['"""Sized module (second copies)."""', ""] if two_files else [])
+    copies = [rng.choice([2, 2, 3]) for _ in range(nfam)]      # three copies: the group has more pairs than one
+    for i in range(nfam):
+        a += size_family_fn(i, "fam%d_first" % i)
+        (b if two_files else a).extend(size_family_fn(i, "fam%d_second" % i))
+        if copies[i] == 3:
+            a += size_family_fn(i, "fam%d_third" % i)
+    have = (len(a) + 1) + ((len(b) + 1) if two_files else 0)     # text = "\n".join(ls) + "\n" -> len(ls) newlines -> len(ls) + 1 lines counted
+    need = target_lines - have
+    if need < 0:
+        raise ValueError("size project: %d lines of code exceed the target %d" % (have, target_lines))
+    padding = []
+    for i in range(need):
+        k = pad if pad != "mixed" else PAD_KINDS[i % 3]
+        padding.append("# %04d | %s | %6d.%02d |" % (i, "entry-%d" % (i * 7 % 101), i * 13 % 9973, i % 100) if k == "comment"
+                       else "" if k == "blank" else "PAD_%d = %d" % (i, i % 17))
+    cut = rng.randint(0, need) if two_files else need
+    a += padding[:cut]
+    b += padding[cut:]
+    files = {"sized_a.py": a}
+    if two_files:
+        files["sized_b.py"] = b
+    for n, ls in files.items():
+        with open(os.path.join(d, n), "w") as f:
+            f.write("\n".join(ls) + "\n")
+    return {"kind": "size", "files": sorted(files), "target_lines": target_lines, "families": nfam, "copies": copies, "padding": pad, "two_files": two_files,
+            "padding_lines_in_first_file": cut, "broken": []}
 
 
 def latest(d, ext):
